@@ -272,7 +272,7 @@ def small_scope(res, ctx, rng):
     n = 0
     for pi, pair in enumerate(SMALL_SCOPE_PAIRS):
         maxlen = ctx.pick(4 if pi == 0 else 3, 5 if pi < 2 else 4)
-        symbols = [(tid, code, q) for tid in (1, 2) for code in pair for q in (0, 1, 2, 3)]
+        symbols = [(tid, code, q) for tid in ((1, 2) if pi % 2 == 0 else (0, 2)) for code in pair for q in (0, 1, 2, 3)]
         for L in range(1, maxlen + 1):
             for combo in itertools.product(range(len(symbols)), repeat=L):
                 n += 1
@@ -295,7 +295,8 @@ def random_histories(res, ctx, rng):
         kinds += rng.sample(inv['undecoded_sample'], rng.randrange(0, 2))
         kinds += rng.sample(inv['unknown_ids'], rng.randrange(0, 2))
         kinds = kinds[:6]
-        tids = [rng.randrange(1, 5) for _ in range(rng.randrange(1, 4))]
+        # thread ids are arbitrary 64-bit words: 0 (a legal, falsy key) and the ends of the range included
+        tids = [rng.choice((rng.randrange(1, 5), rng.randrange(1, 5), 0, (1 << 64) - 1, 1 << 32)) for _ in range(rng.randrange(1, 4))]
         n = rng.randrange(2, 61)
         history = []
         opened = []
